@@ -5,7 +5,7 @@ from excel2pycl.src.tokens.regexp_base_token import RegexpBaseToken, KeywordRege
 
 class MatrixOfCellIdentifiersToken(RegexpBaseToken):
     # TODO Consider the possibility of a matrix like A:A
-    regexp = r'((\'([^\'!]*?)\'|(\w*?))!)?\$?([A-Z]+)(\$?(\d+))?:\$?([A-Z]+)(\$?(\d+))?'
+    regexp = r'((\'([^\'!]+?)\'|(\w+?))!)?\$?([A-Z]+)(\$?(\d+))?:\$?([A-Z]+)(\$?(\d+))?'
     last_match_regexp = r'([^\d].*)?'
     value_range = [0, -1]
 
@@ -26,7 +26,7 @@ class MatrixOfCellIdentifiersToken(RegexpBaseToken):
 
 
 class CellIdentifierRangeToken(RegexpBaseToken):
-    regexp = r'((\'([^\'!]*?)\'|(\w*?))!)?((\$?([A-Z]+)(\$?(\d+))?:\$?\8(\$?(\d+))?)|(\$?([A-Z]+)(\$?(\d+))?:\$?([A-Z]+)(\$?\15)?))'
+    regexp = r'((\'([^\'!]+?)\'|(\w+?))!)?((\$?([A-Z]+)(\$?(\d+))?:\$?\8(\$?(\d+))?)|(\$?([A-Z]+)(\$?(\d+))?:\$?([A-Z]+)(\$?\15)?))'
     last_match_regexp = r'([^\d$].*)?'
     value_range = [0, -1]
 
@@ -48,7 +48,7 @@ class CellIdentifierRangeToken(RegexpBaseToken):
 
 
 class CellIdentifierToken(RegexpBaseToken):
-    regexp = r'((\'([^\'!]*?)\'|(\w*?))!)?\$?([A-Z]+)\$?(\d+)'
+    regexp = r'((\'([^\'!]+?)\'|(\w+?))!)?\$?([A-Z]+)\$?(\d+)'
     last_match_regexp = r'([^\d]|[^:\d].*)?'
     value_range = [0, -1]
 
